@@ -57,6 +57,28 @@ Ks(m, n)  == 0..(MaxOf(m, n) + 1)          \* 0 = None; up to one past max(shape
 \* whenever the sketch covers the rank the contract is the same for every value, n_iter = 0 included.
 \* The grid: every (flip, non_negative) combination for the default n_iter with oversampling 0 / default;
 \* the other sketch parameters and the all-ones mask with the plain call (flip off, non_negative off).
+\* Ways of making the SAME call; they rotate over the runs and are not part of the coverage key:
+\*   cform  "mixed" (matrix positional, options by keyword) | "pos" (every published parameter positionally, in the
+\*          published order) | "kw" (every parameter, the matrix too, by its published name).  The published
+\*          signatures are frozen in the harness (SIGNATURES), not read from the live code.
+\*   entry  the module alias the function is taken from: tensorly.tenalg.svd | tensorly.tenalg | tensorly
+\*   path   "interface" | "helpers": the method function, then the public helpers svd_flip / make_svd_non_negative
+\*          called directly -- what the interface documents it does
+\*   nnspell  spelling of non_negative: off = "omitted" | "none" | "false";  nndsvda = "true" | "name"
+\*   retry  the same call made right after a call that failed half-way (unknown method name) was caught
+CallForms == {"mixed", "pos", "kw"}
+Entries   == {"svd", "tenalg", "tl"}
+Paths     == {"interface", "helpers"}
+NNSpells  == {"omitted", "none", "false", "true", "name"}
+ValidHow(r) ==
+    /\ r.cform \in CallForms /\ r.entry \in Entries /\ r.path \in Paths /\ r.nnspell \in NNSpells /\ r.retry \in BOOLEAN
+    /\ (r.entry \in {"tenalg", "tl"} => r.via = "interface" \/ r.method = "truncated_svd")       \* what those modules export
+    /\ (r.path = "helpers" => r.via = "interface" /\ r.form = "name" /\ r.mask = "off")
+    /\ (r.nonneg = "off" => r.nnspell \in {"omitted", "none", "false"})
+    /\ (r.nonneg = "nndsvda" => r.nnspell \in {"true", "name"}) /\ (r.nonneg = "nndsvd" => r.nnspell = "name")
+\* zeros of the matrix handed over: +0.0, -0.0, or the smallest subnormal 5e-324 (the matrix is the same to 1e-300)
+ZeroForms == {"pos", "neg", "sub"}
+
 \* the form every earlier dimension of the grid is run with: the name, or for the harness's own economy routine
 \* a plain function
 DefaultForm(r) == r.form = (IF r.method = "callable" THEN "lambda" ELSE "name")
@@ -175,6 +197,7 @@ Covered(meth, m, n, k, over, rank) ==
 \* r: the logged run; f: facts (spec, tail2, rank).  First failing clause, "ok" if none.
 RunVerdict(m, n, f, r) ==
     IF ~ValidOpt(m, n, r) THEN "InDomain"
+    ELSE IF ~ValidHow(r) THEN "InDomain"
     ELSE IF r.raised THEN "Raised"
     ELSE
     LET sh  == ShapesOf(r.method, m, n, r.k)
